@@ -76,14 +76,18 @@ def check(chk, repo, tier):
     # ---- lexer: kind/value table ------------------------------------------------
     for k in kinds:
         if k not in EXPECTED_LANG:
-            raise AnalysisError(
-                f"token kind {k} is new: extend the kind/value table")
+            # a kind the table does not know is held to the weakest promise
+            # (free text): the parser-side rules then demand a kind guard on
+            # every value test that such a token can reach
+            chk.info("C03.value-language", f"TokenType.{k}",
+                     "token kind not in the kind/value table: treated as "
+                     "free text")
         lang = langs.get(k)
         if lang is None:
             chk.ob("C03.kind-is-built", f"TokenType.{k}", False,
                    "no lexer branch builds this kind", LF)
             continue
-        exp = EXPECTED_LANG[k]
+        exp = EXPECTED_LANG.get(k)
         if exp is None:
             chk.ob("C03.value-language", f"TokenType.{k}", True,
                    sample={"kind": k, "language": lang.describe()})
